@@ -1,6 +1,31 @@
 # C12 — frequent-items bounds always bracket the true frequency
 #
-# Mutations confirmed caught (scratch worktree, VERIF_REPO): see the list at the end of this header once filled in.
+# Model: coq/FiDefs.v (L1 abstract sketch; L2 the reverse-purge hash map + sketch as coded, incl. the serialized image).
+# Proofs: FiProofs (L1, purges with ANY decrement), FiMapProofs/FiDelProofs/FiIterProofs (hash map: insert, back-shift delete,
+# subtract_and_keep_positive_only, stride iterator), FiRefine (the executable L2 sketch keeps the bracket over every history),
+# FiEps (epsilon bound of the L2 sketch for lg_max <= 10), FiSerProofs (deserialize . serialize = semantic round trip),
+# FiRunProofs (the protocol interpreter FiDefs.step/run: every query/dump answer of every script satisfies the property).
+# The model's merge() is that of the REPAIRED code (fixes/12_1_fi_merge_purged_empty.patch; old behaviour refuted in
+# coq/Regression_fi.v).  Known findings kept: serialize() of a purged-empty sketch, NO_FALSE_NEGATIVES with a threshold
+# below the maximum error, epsilon after merging a smaller sketch.
+#
+# Mutations confirmed caught (scratch worktree /tmp/wt_fi = /repo + the merge patch, VERIF_REPO), each reported VIOLATION:
+#   M1  merge() without `offset += other.offset`                               (DESIGN section 9)
+#   M2  purge() returning 0 instead of the median                              (DESIGN section 9)
+#   M3  get_upper_bound() without `+ offset`                                   (DESIGN section 9)
+#   M4  NO_FALSE_NEGATIVES filter `ub > threshold` -> `lb > threshold`         (DESIGN section 9)
+#   M5  hash_delete() without the back-shift loop (early return)               (DESIGN section 9)
+#   M6  subtract_and_keep_positive_only: `values_[probe] <= amount` -> `<` in the first pass (keeps zero counters)
+#   M7  update(T&&) forgets `total_weight += weight`
+#   M8  hash_delete(): move when `states_[probe] >= drift` (off by one)
+#   M9  deserialize(std::istream&) does not restore the offset
+#   M10 second pass of subtract_and_keep_positive_only starts at size-2 (skips the last slot)
+#   M11 merge(&&) forgets the total-weight fix-up
+#   M12 serialize(std::ostream&) writes offset before total weight
+# Harmless rewrites confirmed NOT reported (exit 0):
+#   H1  median via std::sort instead of std::nth_element
+#   H2  update(): `offset += ...` before `total_weight += ...`; MAX_SAMPLE_SIZE 1024 -> 4096 (no effect for lg_max <= 10)
+#   H3  get_frequent_items(): std::stable_sort on the lower bound; get(): `% size` instead of `& mask`
 from fractions import Fraction
 import struct
 
@@ -12,13 +37,17 @@ RULE = ('operation scripts over 1..4 registers holding frequent_items_sketch<uin
         '(some 9..11, some below 3), start sizes 0..lg_max and refused ones; streams: skewed, uniform, adversarial (all distinct with '
         'equal weights so that a purge wipes the map, then repeats of purged items), heavy hitters with large weights, zero and '
         'negative (signed W) weights; lvalue/rvalue update and merge, self merge, merge of different sizes, copy, '
-        'serialize/deserialize (bytes and stream) into another register; after and between updates: every getter for tracked, '
+        'serialize/deserialize (bytes and stream; the image bytes are compared with the modelled layout) into another register; '
+        'after and between updates: every getter for tracked, '
         'purged and never-seen items, full dumps, get_frequent_items of both error types with default and explicit thresholds '
         '(0, small, around the maximum error, large); non-trivial = more distinct items than the map capacity (purges happen) or a merge '
         'or a round trip')
 TRUSTED = ['hash functors are defined in harness/drv_fi.cpp and modelled identically in coq/FiDefs.v (user_hash); fmix64 from coq/Murmur3.v',
-           'std::nth_element postcondition (element at n/2 of the sorted sample) and std::sort (a permutation sorted by the comparator)']
-ASSUMPTIONS = ['weights small enough that the sums do not overflow the weight type W (uint64_t / int64_t)',
+           'std::nth_element postcondition (element at n/2 of the sorted sample) and std::sort (a permutation sorted by the comparator)',
+           'serde<uint64_t> / serde<std::string> byte formats (8 bytes LE; u32 length + bytes) as modelled in FiDefs.ser_item',
+           'Coq extraction to OCaml of FiDefs.run; coqc/coqchk kernel']
+ASSUMPTIONS = ['weights small enough that the sums do not overflow the weight type W (uint64_t / int64_t); fewer than 2^32 counters '
+               '(FiSerProofs.SerOk)',
                'tables of at most 2^11 slots in the runs; the DRIFT_LIMIT exception (probe distance >= 1024) is not modelled',
                'lg sizes < 32 (the code shifts 1 << lg)']
 
@@ -77,6 +106,10 @@ def gen_case(rng, tier, ci):
     elif r < 0.9: lgm = rng.choice([5, 6, 7, 8])
     elif r < 0.95: lgm = rng.choice([0, 1, 2])
     else: lgm = (rng.choice([9, 10, 11]) if tier != 'quick' else rng.choice([9, 10])) if ci % 3 == 0 or tier != 'quick' else 8
+    if kind == 1 and lgm > 10:
+        lgm = 10        # 5 hash values: a probe distance >= DRIFT_LIMIT (1024) would throw in tables of 2048 slots (not modelled)
+    if kind == 1 and tier != 'quick' and lgm > 8:
+        lgm = 8         # clusters of several hundred slots make the list-based model quadratic; the long streams use smaller tables
     nreg = rng.choice([1, 2, 2, 3, 4])
     regs = []
     for q in range(nreg):
@@ -98,7 +131,7 @@ def gen_case(rng, tier, ci):
         style = rng.choice(['skewed', 'skewed', 'skewed', 'uniform', 'uniform', 'uniform', 'heavy', 'heavy', 'adversarial', 'adversarial'])
         scale = rng.choice([0.5, 1.5, 3, 5]) if tier == 'quick' else rng.choice([0.5, 1.5, 3, 5, 10])
         n = int(cap * scale) + rng.randrange(0, 8)
-        n = min(n, 900 if tier == 'quick' else 4000)
+        n = min(n, 900 if tier == 'quick' else 2500)
         st = gen_stream(rng, style, n, cap, big)
         if len(set(i for i, w in st if w)) > cap:
             tags.add('purge')
@@ -204,7 +237,7 @@ def fixed_cases():
     return [dict(id='fx%d' % i, ops=c, tags=tags[i]) for i, c in enumerate([c0, c1, c2, c3, c4, c5])]
 
 def gen(rng, tier):
-    n = 140 if tier == 'quick' else 1500
+    n = 140 if tier == 'quick' else 600
     return fixed_cases() + [gen_case(rng, tier, ci) for ci in range(n)]
 
 # ---------------------------------------------------------------------------------------------
@@ -324,6 +357,32 @@ def oracle(case, irecs, mrecs):
 FAMILIES = [dict(name='fi', harness='drv_fi.cpp', extract='Extract_fi.v', model='model_fi', gen=gen, oracle=oracle)]
 
 MANIFEST = dict(
-    level_text=('TODO'),
-    level_note=('TODO'),
+    level_text=('Theorems (coq/Properties_C12.v, 25, axiom-free). PROVED for the executable model that is extracted and run against the code '
+                '(FiDefs L2: linear-probing map with drift states, back-shift hash_delete, two-pass subtract_and_keep_positive_only, '
+                'median-of-sample purge, resize, golden-ratio stride iterator; sketch update/merge/serialize+deserialize), for ANY item type, '
+                'ANY hash function and EVERY history of new / update (any weight >= 0) / merge (any reachable operands, different sizes, self) / '
+                'round trip / copy: lower bound <= true weight <= upper bound, lb <= estimate <= ub, ub - lb = maximum error for tracked and '
+                'untracked items, total weight exact (C12_sk_bracket); NO_FALSE_POSITIVES rows only items with true weight > threshold for any '
+                'threshold, NO_FALSE_NEGATIVES rows every item with true weight > threshold for thresholds >= maximum error (the default); '
+                'maximum error <= 3.5/2^lg_max * total when every sketch of the history has lg_max <= 10 and merges take operands of the same or a '
+                'larger lg_max (C12_sk_eps_bound); the hash map refines a finite map (get / insert / delete removes exactly one key / subtract = '
+                'subtract everywhere and keep the positive / iterator visits every counter once: C12_map_*); deserialize(serialize s) = the '
+                'semantic round trip for the modelled byte layout (C12_ser_roundtrip); for the extracted interpreter FiDefs.run itself: in EVERY '
+                'script whose serialize operations meet their side condition, every query and dump answer satisfies the bracket / total clauses '
+                'against the ghost log of exact weights (C12_run_ok). PROVED for the abstract sketch (L1): the same bracket, '
+                'merge, round-trip and result-set statements for purges with ANY decrement >= 0 at ANY time (independent of the sampled median), '
+                'rows sorted by descending estimate, epsilon bound. The model is tied to frequent_items_sketch_impl.hpp / '
+                'reverse_purge_hash_map_impl.hpp by running both on the same generated scripts: every getter, full dumps, result rows and the '
+                'serialized image bytes are compared exactly, and the property predicates are evaluated on the implementation outputs against '
+                'exact counts.'),
+    level_note=('Trusted: Coq kernel and extraction; the hand-written model is validated only by the correspondence runs (3 hash functors incl. a '
+                'clustering one, uint64 and string items, lg_max 3..11). The model describes merge() of the REPAIRED code '
+                '(fixes/12_1_fi_merge_purged_empty.patch; the old early return on "no active counter" is refuted in Regression_fi.v). Not claimed / '
+                'known findings: serialize() of a sketch whose counters were all purged writes the empty form and loses total weight and offset '
+                '(hypothesis "nact <> 0 or total = 0" in SR_roundtrip); NO_FALSE_NEGATIVES with an explicit threshold below the maximum error cannot '
+                'return untracked items (hypothesis offset <= threshold; the Java clamp would not change the rows: C12_nfn_clamp_noop); the epsilon '
+                'bound after merging a sketch with a smaller lg_max. Descending order of the rows is proved for the model\'s sort and only CHECKED '
+                'on the implementation (std::sort). Overflow of the weight type, the DRIFT_LIMIT exception and lg sizes >= 32 are not modelled; '
+                'get_epsilon() is compared as a binary64 bit pattern by the oracle only; lg_max > 10 (partial sample) has the bracket theorems but no '
+                'epsilon theorem.'),
     design_ref='DESIGN.md section 5 C12')
